@@ -48,7 +48,7 @@ inductive NStep | passNonProvisional | register | collect | returnCollected
 deriving Repr, DecidableEq
 inductive GStep
   | loadDeps (isProduct : Bool) | loadProds (isProduct needsParam : Bool) | call | parseDefined (raisesIfNone : Bool)
-  | collectEach | raiseOnCollectFail | extendTasks | modifyTasks | recreate (c : RCond) | ret (v : Bool)
+  | collectEach | raiseOnCollectFail | raiseOnDuplicate | extendTasks | modifyTasks | recreate (c : RCond) | ret (v : Bool)
 deriving Repr, DecidableEq
 inductive TStep | setDag | renewSkipMarks | renewFailMarks | setScheduler
 deriving Repr, DecidableEq
@@ -310,6 +310,24 @@ def _is_raise_on_collect_fail(st: ast.For) -> bool:
     return exc is not None and _u(exc).startswith(f"{i}.exc_info")
 
 
+def _is_raise_on_duplicate(st: ast.For) -> bool:
+    """`for i in new_reports: if <i collected successfully>: if i.node.signature in signatures: raise …; signatures.add(…)`
+    (F39): a defined task whose signature is already used by a task of the session or by an earlier defined task makes
+    the generator raise. `signatures` must start as the signatures of `session.tasks` (checked by the caller)."""
+    if st.orelse or not isinstance(st.target, ast.Name) or _u(st.iter) != "new_reports" or len(st.body) != 1 or not isinstance(st.body[0], ast.If):
+        return False
+    i = st.target.id
+    outer = st.body[0]
+    tests = [_u(v) for v in outer.test.values] if isinstance(outer.test, ast.BoolOp) and isinstance(outer.test.op, ast.And) else [_u(outer.test)]
+    if outer.orelse or sorted(tests) != sorted([f"{i}.outcome == CollectionOutcome.SUCCESS", f"isinstance({i}.node, PTask)"]):
+        return False
+    if len(outer.body) != 2 or not isinstance(outer.body[0], ast.If) or _u(outer.body[1]) != f"signatures.add({i}.node.signature)":
+        return False
+    inner = outer.body[0]
+    return (not inner.orelse and _u(inner.test) == f"{i}.node.signature in signatures"
+            and any(isinstance(x, ast.Raise) for x in inner.body))
+
+
 def _gen_steps():
     fn = _top_func("provisional.py", "pytask_execute_task")
     top = [st for st in _body(fn)]
@@ -332,7 +350,11 @@ def _gen_steps():
     where = "pytask_execute_task (generators)"
     steps = []
     sub = Subst()
+    seen_signatures = False
     for st in br.body:
+        if isinstance(st, ast.Assign) and _u(st) == "signatures = {t.signature for t in session.tasks}":
+            seen_signatures = True   # read by `raiseOnDuplicate` only
+            continue
         if isinstance(st, ast.For):
             ld = _load_loop(st, where)
             if ld is not None:
@@ -346,6 +368,11 @@ def _gen_steps():
                 if ("collectEach",) not in steps or ("extendTasks",) in steps:
                     raise _err(f"{where}: collection errors are raised at an unexpected place")
                 steps.append(("raiseOnCollectFail",))
+                continue
+            if _is_raise_on_duplicate(st):
+                if ("collectEach",) not in steps or ("extendTasks",) in steps or not seen_signatures:
+                    raise _err(f"{where}: the duplicate-signature check is at an unexpected place or starts from another set")
+                steps.append(("raiseOnDuplicate",))
                 continue
             raise _err(f"{where}: unrecognised loop {src[:100]!r}")
         if isinstance(st, ast.Expr) and isinstance(st.value, ast.Call):
